@@ -315,3 +315,26 @@ def forest_nodes(f, prefix=()):
         out.append(p)
         out.extend(forest_nodes(ch, p))
     return out
+
+
+# ------------------------------------------------------------------ shared streams for C04 / C12 on hierarchical machines
+def mask_handled(case, obs):
+    """after an exception swallowed by on_exception handlers a hierarchical trigger returns event_data.result as it
+    was last assigned (possibly True when an earlier region executed); the model returns False.  C04 only says 'the
+    trigger returns normally', so the value is masked on both sides."""
+    if not isinstance(obs, list) or obs[0] != 1:
+        return obs
+    out = []
+    for items, res, cfg in obs[2]:
+        if res[0] == 0 and any(it[0] == 12 for it in items):
+            res = [0, 'handled']
+        out.append([items, res, cfg])
+    return [1, obs[1], out]
+
+
+def run_pairs(cases):
+    """model and implementation observations of hierarchical cases"""
+    import framework as F
+    mo = F.run_model(3, [enc_case(c) for c in cases])
+    io = F.run_impl('hsm', 'impl_hsm', cases)
+    return mo, io
